@@ -119,6 +119,40 @@ def body_ball_save(S, t, part):
     S.note("saved", n_saved)
 
 
+def body_queued(S, t, part):
+    """several devices hold queued requests at once (two empty saucer holes asked to release, the plunger asked for a ball);
+    when a ball becomes available in the trough, the request that CAN be served is served"""
+    m = t.machine
+    S.now_symbolic(t.loop)
+    dur = {"transit_bd_trough": S.real("transit_trough", 0.05, 2.5), "transit_bd_plunger": S.real("transit_plunger", 0.05, 2.5)}
+    devs = [Dev("bd_hole_a", ["s_hole_a"], "c_hole_a", "playfield"), Dev("bd_trough", ["s_trough1", "s_trough2"], "c_trough", "bd_plunger"),
+            Dev("bd_plunger", ["s_plunger"], "c_plunger", "playfield"), Dev("bd_hole_z", ["s_hole_z"], "c_hole_z", "playfield")]
+    w = World(t, devs, {}, dur)
+    w.pf = 1                        # one ball is loose on the playfield, nothing is home
+    t.advance_time_and_run(1)
+    holes = bool(S.bool("holes_asked_to_release_while_empty"))
+    if holes:
+        m.events.post("release_hole")
+    t.advance_time_and_run(S.real("gap1", 0, 3))
+    m.playfield.add_ball(1, player_controlled=False)
+    t.advance_time_and_run(S.real("gap2", 0, 3))
+    if m.ball_devices["bd_plunger"].requested_balls != 1:
+        raise Violation("harness", "add_ball", "the plunger holds %s requests" % m.ball_devices["bd_plunger"].requested_balls)
+    w.drain()                       # the loose ball drains: now there is a ball on a path to the plunger
+    t.advance_time_and_run(60)
+    if w.violations:
+        raise Violation(*w.violations[0])
+    if w.pf != 1 or m.ball_devices["bd_plunger"].requested_balls != 0:
+        raise Violation("requested-ball-is-eventually-delivered", "BallDevice._source_device_balls_available",
+                        "a ball became available in the trough but the plunger's request was not served 60 s later: loose balls %s, trough %s, plunger %s (requests %s), holes asked to release: %s" % (
+                            w.pf, m.ball_devices["bd_trough"].balls, m.ball_devices["bd_plunger"].balls, m.ball_devices["bd_plunger"].requested_balls, holes))
+    for name in ("bd_trough", "bd_plunger"):
+        if m.ball_devices[name].state != "idle":
+            raise Violation("every-device-returns-to-idle", "BallDevice", "%s is in state %s 60 s after the world stopped changing" % (name, m.ball_devices[name].state))
+    S.note("nontrivial", True)
+    S.note("holes", holes)
+
+
 def scenarios(tier):
     parts = []
     for f in range(0, 5):
@@ -130,4 +164,5 @@ def scenarios(tier):
     parts.append(dict(machine="balls_a", mode="back", balls=1, failures=1, via_game=True))
     pb = 60 if tier == "quick" else 800
     return [Scenario("failures", setup, body, parts, teardown=teardown, part_budget=pb, per_path_timeout=30 if tier == "quick" else 120),
+            Scenario("queued_requests", setup, body_queued, [dict(machine="balls_f")], teardown=teardown, part_budget=pb, per_path_timeout=60),
             Scenario("ball_save", setup, body_ball_save, [dict(machine="balls_e")], teardown=teardown, part_budget=pb, per_path_timeout=60)]
